@@ -320,11 +320,33 @@ func (w *World) execBlock(op *Op) bool {
 	if c == nil {
 		return true
 	}
+	if len(op.Sub) > 0 {
+		mc = mc.Clone() // nested ops may mutate the collection; the enumeration runs on the version it started on
+		if w.rc != nil && os.Getenv("VERIF_NO_EXCLUDE") == "" {
+			w.prewarm(h)
+		}
+	}
 	seen := map[string]int{}
 	var bad string
+	calls, subDone := 0, false
 	visitor := func(i *g.Item, d uint64) bool {
 		if w.rc != nil {
 			w.rc.checkPositive(w, i, "block visitor argument")
+		}
+		calls++
+		if len(op.Sub) > 0 && !subDone && calls-1 == op.At {
+			subDone = true
+			key := string(i.Key)
+			w.inVisit++
+			for j := range op.Sub {
+				w.exec(&op.Sub[j])
+				w.ev["nested:"+op.Sub[j].K]++
+			}
+			w.inVisit--
+			w.ev["nested_ops"]++
+			w.ev["nested_in_block_visit"]++
+			w.released++
+			_ = key
 		}
 		seen[string(i.Key)]++
 		mi, ok := mc.Items[string(i.Key)]
@@ -339,6 +361,8 @@ func (w *World) execBlock(op *Op) bool {
 	}
 	name := "VisitItemsAscendBlockEx"
 	var err error
+	w.visiting = append(w.visiting, h)
+	defer func() { w.visiting = w.visiting[:len(w.visiting)-1] }()
 	p := w.opt.Plan
 	fired0 := p != nil && p.Fired
 	if p != nil {
